@@ -112,8 +112,24 @@ class TdText(HTMLParser):
             self.cur["text"] += data
 
 
+HTML_WS = " \t\n\f\r"   # HTML white space is exactly these five; U+2028, U+2029, U+0085, VT, FS, GS, RS are TEXT
+_HTML_WS_RUN = re.compile("[" + HTML_WS + "]+")
+# every line boundary of str.splitlines / textwrap.indent: after one of these t() may insert indentation
+_LINE_BOUNDARY = re.compile("[\n\r\x0b\x0c\x1c\x1d\x1e\x85\u2028\u2029]")
+
+
+# the line boundaries that are NOT HTML white space
+_EXOTIC = re.compile("[\x0b\x1c\x1d\x1e\x85\u2028\u2029]")
+
+
 def ws(x: str) -> str:
-    return " ".join(x.split())
+    """Runs of HTML white space collapsed to one space, ends trimmed; every other character must survive."""
+    return _HTML_WS_RUN.sub(" ", x).strip(HTML_WS)
+
+
+def sq(x: str) -> str:
+    """HTML white space deleted (only these five characters: the other Unicode separators are visible text)."""
+    return _HTML_WS_RUN.sub("", x)
 
 
 def oracle(tree: Any, html_text: str) -> Optional[str]:
@@ -128,12 +144,20 @@ def oracle(tree: Any, html_text: str) -> Optional[str]:
     for cell, td in zip(cells, p.tds):
         text, items = expected_text(cell.value)
         if items is not None:
-            if [ws(x) for x in td["lis"]] != [ws(x) for x in items]:
+            if any(_EXOTIC.search(x) for x in items):
+                same = [sq(x) for x in td["lis"]] == [sq(x) for x in items]
+            else:
+                same = [ws(x) for x in td["lis"]] == [ws(x) for x in items]
+            if not same:
                 return f"output list cell shows {td['lis']!r}, the outputs are {items!r}"
             continue
         got = td["text"]
-        if td["conv"] or "\n" in (text or ""):
-            ok = ws(got) == ws(text)           # t() re-indents bodies that hold the conversions list
+        if _EXOTIC.search(text or ""):
+            # textwrap.indent puts the indentation of the enclosing <tr>/<table> after such a character too, i.e.
+            # HTML white space where the text had none: equality after DELETING HTML white space (and only that)
+            ok = sq(got) == sq(text)
+        elif td["conv"] or _LINE_BOUNDARY.search(text or ""):
+            ok = ws(got) == ws(text)           # t() re-indents bodies that hold the conversions list / line breaks
         else:
             ok = got == text
         if not ok:
